@@ -39,7 +39,18 @@ MANIFEST = dict(
           "parent names re-cased) do not depend on letter case. Invariance under re-casing of the QUERY is proved here; invariance "
           "under re-casing of the references STORED in the workspace (parent names, uses lists, declared type names) is "
           "Properties/C10.v C10_workspace_recase / C10_workspace_recase_answers and C11.v C11_workspace_recase (all workspaces, no "
-          "well-formedness hypothesis). Tie: generated "
+          "well-formedness hypothesis). TREE LEVEL (C17_tree_*, Proofs/RecaseTree.v, RecaseWsTree.v, RecaseHierTree.v; for all trees / "
+          "workspaces): t ~ref t' := equal except for the letter case of keywords and references, = node_sim /\\ decl_exact "
+          "(C17_tree_ref_sim_is_parser_similarity), reached from re-cased texts (C17_tree_text_to_ref_sim); C17_tree_annot: the "
+          "annotator's tables have the same class, the same symbols, uses_entities equal ignoring case (equal: refuted); "
+          "C17_tree_report: the whole assembled diagnostics response is identical; C17_tree_deftree / C17_tree_wstree: "
+          "go-to-definition and completion of the tree-level models (one document; workspaces with parents, uses, typed "
+          "operands) are identical at every position, the classification Outside included; C17_tree_forest: the class trees of "
+          "re-cased file lists (any order, no forest / size hypothesis) are the same heap up to the case of node ids; "
+          "C17_tree_hiertree: prepare / supertypes / subtypes identical, names included (C17_tree_old_item_name_refuted: not so "
+          "before /repo 3e4a84d); C17_tree_hier_after_dot_branches_refuted: the exact-spelling comparison of "
+          "search_sym_info_for_node (right operand of a dot, Outside in the model) has two branches that reach different "
+          "symbols -- finding hier-after-dot-own-class-spelling. Tie: generated "
           "workspaces (2..6 classes + modules, inheritance, uses, members, methods with parameters / locals, bodies with "
           "assignments, calls, dotted chains, dangling dots, if / for / while / loop / repeat / switch blocks, `inherited self.X`, "
           "`Purge(x)`, tVarByteArray locals, `pass`, return) and single-file programs of the full grammar (types, records, OQL) x "
@@ -67,11 +78,14 @@ ASSUMPTIONS = [
     "the same sequence of requests is sent to both variants (answers may depend on the order of requests: C10 ASSUMPTIONS); HashMap iteration order is not observed (labels, hierarchy items and diagnostics are compared sorted)",
     "the declared type of a MEMBER (field, function, alias) never needs a `uses` look-up (as checks/c10.py ASSUMPTIONS: what such a look-up finds depends on the history of requests; the same history is used for both variants, the restriction only keeps the generated workspaces inside the territory C10 / C11 validated)",
     "the outline's `detail` strings echo references as written (parent class, field type, return type): compared exactly by the oracle, reported as finding outline-detail-echo",
+    "tree_recase stage: the type-hierarchy WALKERS (supertypes / subtypes) are compared only for workspaces whose header parent graph is a forest with pairwise distinct class names: otherwise the class tree depends on the order in which the files are met (a HashMap order, different from run to run on one and the same workspace); a difference counts only if three more runs answer each variant the same way",
+    "tree_recase stage: prepareTypeHierarchy on the member after a dot differs when a reference to the class being annotated is spelled as declared in one variant and otherwise in the other (finding hier-after-dot-own-class-spelling, checked to reproduce on its witness); such positions are counted, everything else must be identical",
 ]
 
 NAMING = ("NPROC", "NFUNC", "NFIELD", "NPARAM", "NLOCAL", "NTYPE", "NCONST")
 DEV_DETAIL = "outline-detail-echo"        # the outline's detail strings are references echoed as written
 ALL_DEVS = [DEV_DETAIL]
+DEV_HIER_DOT = "hier-after-dot-own-class-spelling"   # tree_recase stage: exact-spelling comparison in search_sym_info_for_node
 
 
 # =============================================================================================
@@ -1114,6 +1128,445 @@ def replay_witnesses(ctx):
         ctx.known("%s: %s reproduces on its witness" % (f.get("id"), cls))
 
 
+
+# =============================================================================================
+# tree level (Properties/C17.v C17_tree_*): the workspaces of checks/c10.py's wstree stage and a re-casing of each
+# (every keyword and every reference: parent class, `uses` entities, type names, body identifiers; declared names
+# untouched), both through the harness engines `wstree`, `hiertree` and `report` -- implementation vs implementation,
+# position by position (the positions are the same: only letter case changes)
+# =============================================================================================
+_DECL_KIND_NAMES = ("KAstClass", "KAstModule", "KAstConstantDeclaration", "KAstTypeDeclaration", "KAstGlobalVariableDeclaration",
+                    "KAstLocalVariableDeclaration", "KAstParameterDeclaration", "KAstProcedure", "KAstFunction",
+                    "KAstEnumVariant", "KAstTypeRecordField")
+_METH_KIND_NAMES = ("KAstProcedure", "KAstFunction")
+_KIND_IDX = None
+
+
+def _kind_idx():
+    global _KIND_IDX
+    if _KIND_IDX is None:
+        import os
+        path = os.path.join(core.VERIF, "coq/theories/Gen/AstKinds.v")
+        names = re.findall(r"^\| (K\w+)", open(path).read(), re.M)
+        _KIND_IDX = ({str(names.index(n)) for n in _DECL_KIND_NAMES}, {str(names.index(n)) for n in _METH_KIND_NAMES})
+    return _KIND_IDX
+
+
+def classify_ws_file(text):
+    """classify_program, plus the references OUTSIDE method bodies: the parent class of a class header, the entities of
+    a `uses` line, and type names (a word directly after `:`, `return`, `refTo`, `listOf`, `instanceOf`)"""
+    kws = keywords()
+    pieces = classify_program(text)[0]
+    out = []
+    first_word = None          # upper-cased first word of the current line
+    prev_sig = None            # previous token that is not a blank: (text, class)
+    prev_word = None
+    for t, c in pieces:
+        if t in ("\n", "\r"):
+            first_word, prev_sig, prev_word = None, None, None
+            out.append((t, c))
+            continue
+        is_word = bool(t) and t[0] in WORD0
+        if is_word:
+            up = t.upper()
+            if first_word is None:
+                first_word = up
+            elif c == O and up not in kws:
+                if first_word == "CLASS" and prev_word != "CLASS" and prev_sig is not None and prev_sig[0] == "(":
+                    c = R
+                elif first_word == "USES":
+                    c = R
+                elif prev_sig is not None and prev_sig[0] == ":" :
+                    c = R
+                elif prev_word in ("RETURN", "REFTO", "LISTOF", "INSTANCEOF") and prev_sig is not None and prev_sig[0].upper() == prev_word:
+                    c = R
+            prev_word = up
+        if t not in (" ", "\t"):
+            prev_sig = (t, c)
+        out.append((t, c))
+    return [out]
+
+
+def _heads(dump):
+    """the node heads of a dump in pre-order: (kind, ident cps, attrs)"""
+    out, pos, n = [], 0, len(dump)
+    while pos < n:
+        if dump[pos] == "(":
+            j = dump.index("{", pos)
+            k = dump.index("}", j)
+            h = dump[pos + 1:j].split(" ")
+            out.append((h[0], h[1], dump[j + 1:k]))
+            pos = k + 1
+        else:
+            pos += 1
+    return out
+
+
+def _attr1(attrs):
+    for kv in attrs.split(";"):
+        if kv.startswith("1="):
+            return kv
+    return ""
+
+
+def dumps_ref_sim(da, db):
+    """the hypothesis of the C17_tree_* theorems on two dumps: equal ignoring the case of identifiers and word values
+    (node_sim), every declaring node spelled identically (decl_exact)"""
+    if canon_dump(da) != canon_dump(db):
+        return False
+    decl, meth = _kind_idx()
+    ha, hb = _heads(da), _heads(db)
+    if len(ha) != len(hb):
+        return False
+    for i, (x, y) in enumerate(zip(ha, hb)):
+        if x[0] in decl:
+            if x[1] != y[1] or _attr1(x[2]) != _attr1(y[2]):
+                return False
+            if x[0] in meth and i + 1 < len(ha) and ha[i + 1][1] != hb[i + 1][1]:
+                return False
+    return True
+
+
+NAMING_TEXTS = ("names should have capital first letter", "names should have lowercase first letter",
+                "names should start with")
+
+
+def _uncps(s):
+    return "".join(chr(int(x)) for x in s.split(".")) if s and s != "-" else ""
+
+
+def _report_items(obs):
+    """first response of engine `report` -> (items without the naming ones, number of naming items)"""
+    if "#" not in obs:
+        return None
+    resp = obs.split("#", 1)[1].split("|", 1)[0]
+    items, naming = [], []
+    for it in (resp.split(";") if resp else []):
+        msg = _uncps(it.rsplit(":", 1)[1]) if ":" in it else ""
+        (naming if any(x in msg for x in NAMING_TEXTS) else items).append(it)
+    return items, naming
+
+
+def _report_cmp(items):
+    """unused-variable warnings of one method come in HashMap order: runs of them as sorted runs"""
+    out, run = [], []
+    for it in items:
+        if "85.110.117.115.101.100.32.118.97.114" in it:      # "Unused var"
+            run.append(it)
+        else:
+            if run:
+                out.append(tuple(sorted(run)))
+                run = []
+            out.append(it)
+    if run:
+        out.append(tuple(sorted(run)))
+    return out
+
+
+def tree_recase_pairs(ctx):
+    from checks import c10
+    cases, hist = c10.ws_cases(ctx)
+    rng = random.Random(ctx.seed * 104729 + 17)
+    if ctx.quick and len(cases) > 150:
+        keep = sorted(rng.sample(range(len(cases)), 150))
+        cases = [cases[i] for i in keep]
+    pairs = []
+    for case in cases:
+        kind = case.rsplit("@", 1)[1]
+        files = c10.ws_files(case)
+        mode = rng.choice(MODES)
+        changed = {K: 0, R: 0}
+
+        def rc(t, c):
+            if c in (K, R):
+                t2 = recase_word(rng, t, mode)
+                if t2 != t:
+                    changed[c] += 1
+                return t2
+            return t
+        fa, fb, ok = [], [], True
+        for stem, text in files:
+            lines = classify_ws_file(text)
+            ta = "".join(t for t, _ in lines[0])
+            tb = "".join(rc(t, c) for t, c in lines[0])
+            if ta != text:
+                ok = False
+                break
+            try:
+                check_recasing(ta, tb)
+            except AssertionError:
+                ok = False
+                break
+            fa.append((stem, ta))
+            fb.append((stem, tb))
+        if ok:
+            pairs.append(dict(kind=kind, mode=mode, a=fa, b=fb, kw=changed[K], ref=changed[R]))
+    return pairs, hist
+
+
+def _ht_line(files):
+    return ";".join("%s~%s" % (s, ".".join(str(ord(c)) for c in t)) for s, t in files)
+
+
+def _cps(t):
+    return ".".join(str(ord(c)) for c in t)
+
+
+def tree_recase_run(pairs):
+    """-> per pair a dict with the raw outputs of the three engines on both variants"""
+    from checks import c10
+    hb = diff.Engines.harness()
+    ws_lines, ht_lines, rp_lines, rp_idx = [], [], [], []
+    for i, p in enumerate(pairs):
+        for v in ("a", "b"):
+            ws_lines.append(c10.ws_line(p[v], p["kind"]))
+            ht_lines.append(_ht_line(p[v]))
+            for fi, (stem, t) in enumerate(p[v]):
+                if t:
+                    rp_lines.append(_cps(t))
+                    rp_idx.append((i, v, fi))
+    ws_out = core.run_lines(hb, "wstree", ws_lines)
+    ht_out = core.run_lines(hb, "hiertree", ht_lines)
+    rp_out = core.run_lines(hb, "report", rp_lines)
+    res = [dict(ws={}, ht={}, rp={"a": {}, "b": {}}) for _ in pairs]
+    for i in range(len(pairs)):
+        res[i]["ws"] = {"a": ws_out[2 * i], "b": ws_out[2 * i + 1]}
+        res[i]["ht"] = {"a": ht_out[2 * i], "b": ht_out[2 * i + 1]}
+    for (i, v, fi), o in zip(rp_idx, rp_out):
+        res[i]["rp"][v][fi] = o
+    return res
+
+
+def _is_forest(files):
+    """the parent graph of the headers (upper-cased names) has no cycle and no class is declared twice: only then is the
+    class tree independent of the order in which index_files / the tree builder meet the files (a HashMap order)"""
+    from checks import c10
+    par = {}
+    for _stem, text in files:
+        m = c10.WS_HEADER.search(text)
+        if not m:
+            continue
+        name = m.group(2).upper()
+        if name in par:
+            return False
+        par[name] = m.group(4).upper() if m.group(4) else None
+    for n in par:
+        seen, cur = set(), n
+        while cur is not None and cur in par:
+            if cur in seen:
+                return False
+            seen.add(cur)
+            cur = par[cur]
+    return True
+
+
+HIER_DOT_WITNESS = ("class aBeta\nFb : %s\nfunc GetLink(p2 : int4) return int4\n  var GetLink : int4\n  x = Fb.GetLink(1)\nendfunc\n")
+
+
+def _after_dot(text, pos):
+    """the identifier at l:c (start / middle / end of the token) is directly preceded by a dot"""
+    l, c = (int(x) for x in pos.split(":"))
+    lines = text.split("\n")
+    if l >= len(lines):
+        return False
+    ln = lines[l]
+    i = min(c, len(ln))
+    if i == len(ln) or ln[i] not in WORDC:
+        i -= 1
+    while i >= 0 and ln[i] in WORDC:
+        i -= 1
+    return i >= 0 and ln[i] == "."
+
+
+def _own_class_respelled(own, fa, fb):
+    """a reference (in any file of the workspace: the eval type of an operand is the type name as written in the
+    declaration it comes from) to the class / module of the file `own` is spelled as declared in one variant and
+    otherwise in the other"""
+    from checks import c10
+    m = c10.WS_HEADER.search(own) or re.search(r"(?im)^(\s*module\s+)(\w+)", own)
+    if not m:
+        return False
+    name = m.group(2)
+    for (_s, ta), (_s2, tb) in zip(fa, fb):
+        for mm in re.finditer(r"\b%s\b" % re.escape(name), ta, re.I):
+            a, b = ta[mm.start():mm.end()], tb[mm.start():mm.end()]
+            if a != b and (a == name or b == name):
+                return True
+    return False
+
+
+def hier_dot_listed(ctx):
+    return any(f.get("property") == PID and f.get("class") == DEV_HIER_DOT for f in ctx.open_findings())
+
+
+def hier_dot_witness_reproduces():
+    hb = diff.Engines.harness()
+    outs = core.run_lines(hb, "hiertree", [_ht_line([("aBeta", HIER_DOT_WITNESS % "aBeta")]), _ht_line([("aBeta", HIER_DOT_WITNESS % "abeta")])], shards=1)
+    def at(o):
+        head, obs = o.split("#", 1)
+        pos = head.rsplit("@", 1)[1].split("|")[0].split(",")
+        return obs.split("|")[0].split(";")[pos.index("4:9")]
+    try:
+        return at(outs[0]).startswith("P-") and at(outs[1]).startswith("Pf/")
+    except (ValueError, IndexError):
+        return False
+
+
+def tree_recase_compare(p, r, stats=None, listed=False):
+    """-> None | 'skip: ...' (the pair is outside the theorems' hypothesis) | description of the first difference"""
+    def bump(k, n=1):
+        if stats is not None:
+            stats[k] = stats.get(k, 0) + n
+    wa, wb = r["ws"]["a"], r["ws"]["b"]
+    if "#" not in wa or "#" not in wb or wa.startswith(("X", "HANG")) or wb.startswith(("X", "HANG")):
+        if ("#" in wa) != ("#" in wb) or wa.split("#")[0][:1] != wb.split("#")[0][:1]:
+            return "wstree: one variant is answered, the other is not: %r vs %r" % (wa[:60], wb[:60])
+        return "skip: wstree engine gives no answers (%s)" % wa[:20]
+    ha, oa = wa.split("#", 1)
+    hb_, ob = wb.split("#", 1)
+    fa, fb = ha.split("@"), hb_.split("@")
+    if len(fa) < 3 or len(fb) < 3:
+        return "skip: unexpected head"
+    da, db = fa[0].split("|"), fb[0].split("|")
+    if len(da) != len(db) or not all(dumps_ref_sim(x, y) for x, y in zip(da, db)):
+        return "skip: the two variants' trees are not ~ref (the re-caser touched a declaration, or the parser tells them apart)"
+    if fa[2] != fb[2]:
+        return "the identifier positions differ between the variants"
+    stems = [s for s, _ in p["a"]]
+    pa, pb = oa.split("|"), ob.split("|")
+    if len(pa) != len(pb):
+        return "wstree: different number of files answered"
+    poss = [ps.split(",") if ps else [] for ps in fa[2].split("|")]
+    for fi, (xa, xb) in enumerate(zip(pa, pb)):
+        la, lb = (xa.split(";") if xa else []), (xb.split(";") if xb else [])
+        if len(la) != len(lb):
+            return "wstree: file %d: different number of answers" % fi
+        for k, (a, b) in enumerate(zip(la, lb)):
+            bump("definition_requests"); bump("completion_requests")
+            d1, c1 = a[1:].split("C", 1)
+            d2, c2 = b[1:].split("C", 1)
+            if d1 not in ("-", ""):
+                bump("definition_nonempty")
+            if d1 != d2:
+                return "definition in %s at %s: %s  vs  %s" % (stems[fi] if fi < len(stems) else fi, poss[fi][k] if fi < len(poss) and k < len(poss[fi]) else k, d1[:200], d2[:200])
+            if sorted(c1.split(",")) != sorted(c2.split(",")):
+                return "completion in %s at %s: %s  vs  %s" % (stems[fi] if fi < len(stems) else fi, poss[fi][k] if fi < len(poss) and k < len(poss[fi]) else k, c1[:200], c2[:200])
+            if c1 not in ("-", ""):
+                bump("completion_nonempty")
+    # hierarchy
+    ta, tb = r["ht"]["a"], r["ht"]["b"]
+    forest = _is_forest(p["a"])
+    if not forest:
+        bump("non_forest_workspaces_walkers_not_compared")
+    if "#" in ta and "#" in tb:
+        xa, xb = ta.split("#", 1)[1], tb.split("#", 1)[1]
+        if ta.split("#", 1)[0].rsplit("@", 1)[-1] != tb.split("#", 1)[0].rsplit("@", 1)[-1]:
+            return "hiertree: the identifier positions differ between the variants"
+        fa_, fb_ = xa.split("|"), xb.split("|")
+        if len(fa_) != len(fb_):
+            return "hiertree: different number of files answered"
+        for fi, (ya, yb) in enumerate(zip(fa_, fb_)):
+            la, lb = (ya.split(";") if ya else []), (yb.split(";") if yb else [])
+            if len(la) != len(lb):
+                return "hiertree: file %d: different number of answers" % fi
+            for k, (a, b) in enumerate(zip(la, lb)):
+                bump("hierarchy_requests")
+                if not forest:
+                    # parent cycle / a class declared twice: which link is refused depends on the order of the files
+                    a, b = a.split("S", 1)[0], b.split("S", 1)[0]
+                if a != b:
+                    hp = ta.split("#", 1)[0].rsplit("@", 1)[-1].split("|")
+                    pos = hp[fi].split(",")[k] if fi < len(hp) and k < len(hp[fi].split(",")) else None
+                    if (listed and pos and fi < len(p["a"]) and _after_dot(p["a"][fi][1], pos)
+                            and _own_class_respelled(p["a"][fi][1], p["a"], p["b"])):
+                        bump("known_deviation_" + DEV_HIER_DOT + "_positions")
+                        continue
+                    return "type hierarchy in %s at %s: %s  vs  %s" % (stems[fi] if fi < len(stems) else fi, pos or k, a[:200], b[:200])
+                if not a.startswith("P-") and not a.startswith("PERR"):
+                    bump("hierarchy_items_prepared")
+    elif ("#" in ta) != ("#" in tb):
+        return "hiertree: one variant is answered, the other is not: %r vs %r" % (ta[:60], tb[:60])
+    # diagnostics
+    for fi in sorted(r["rp"]["a"]):
+        ra, rb = r["rp"]["a"].get(fi), r["rp"]["b"].get(fi)
+        if ra is None or rb is None:
+            continue
+        ia, ib = _report_items(ra), _report_items(rb)
+        if ia is None or ib is None:
+            if (ia is None) != (ib is None):
+                return "report of %s: one variant is answered, the other is not: %r vs %r" % (stems[fi], ra[:60], rb[:60])
+            continue
+        bump("diagnostic_reports"); bump("diagnostic_items", len(ia[0]) + len(ia[1]))
+        if _report_cmp(ia[0]) != _report_cmp(ib[0]):
+            return "diagnostics (naming rules excluded) of %s: %s  vs  %s" % (stems[fi], ";".join(ia[0])[:300], ";".join(ib[0])[:300])
+        if sorted(ia[1]) != sorted(ib[1]):
+            bump("naming_reports_changed")
+    return None
+
+
+def tree_recase_stage(ctx):
+    listed = hier_dot_listed(ctx)
+    if listed:
+        if not hier_dot_witness_reproduces():
+            path = core.write_replay(ctx.pid, ctx.seed, {"broken": "known finding %s no longer reproduces on its witness" % DEV_HIER_DOT,
+                                                          "engine": "tree_recase", "kind": "witness", "mode": None,
+                                                          "files": [("aBeta", HIER_DOT_WITNESS % "aBeta")],
+                                                          "files_recased": [("aBeta", HIER_DOT_WITNESS % "abeta")]})
+            raise core.Violation("listed finding does not reproduce", path, False)
+        ctx.known("%s: reproduces on its witness (Fb : aBeta vs Fb : abeta, prepareTypeHierarchy on Fb.GetLink)" % DEV_HIER_DOT)
+    pairs, hist = tree_recase_pairs(ctx)
+    res = tree_recase_run(pairs)
+    stats, skipped = {}, {}
+    compared = nontriv = 0
+    for p, r in zip(pairs, res):
+        v = tree_recase_compare(p, r, stats, listed)
+        if v is None:
+            compared += 1
+            if p["kw"] and p["ref"]:
+                nontriv += 1
+            continue
+        if v.startswith("skip:"):
+            skipped[v] = skipped.get(v, 0) + 1
+            continue
+        # a difference counts only if the implementation answers the ORIGINAL workspace the same way every time
+        reruns = [tree_recase_run([p])[0] for _ in range(3)]
+        if any(x["ws"]["a"].split("#", 1)[-1] != r["ws"]["a"].split("#", 1)[-1] or x["ht"]["a"] != r["ht"]["a"] or
+               x["ws"]["b"].split("#", 1)[-1] != r["ws"]["b"].split("#", 1)[-1] or x["ht"]["b"] != r["ht"]["b"] for x in reruns):
+            k = "skip: the implementation answers one and the same variant differently from run to run (order of a HashMap)"
+            skipped[k] = skipped.get(k, 0) + 1
+            continue
+        path = core.write_replay(ctx.pid, ctx.seed, {
+            "engine": "tree_recase", "kind": p["kind"], "mode": p["mode"], "files": p["a"], "files_recased": p["b"],
+            "first_difference": v,
+            "expected": "definition targets, completion label sets, type-hierarchy items and non-naming diagnostics are identical "
+                        "for a workspace and its re-casing (Properties/C17.v C17_tree_wstree / C17_tree_hiertree / C17_tree_report)"})
+        raise core.Violation("re-casing keywords / references changes a tree-level answer: " + v, path, True)
+    cov = dict(stats)
+    kd = stats.get("known_deviation_" + DEV_HIER_DOT + "_positions", 0)
+    if kd:
+        ctx.known("%s: %d positions after a dot (own class re-spelled in a declared type) differ by the listed deviation only" % (DEV_HIER_DOT, kd))
+    cov.update({
+        "workspace_pairs": len(pairs), "pairs_compared": compared, "pairs_nontrivial": nontriv,
+        "pairs_outside_hypothesis": skipped,
+        "keyword_spans_recased": sum(p["kw"] for p in pairs), "reference_spans_recased": sum(p["ref"] for p in pairs),
+        "files": sum(len(p["a"]) for p in pairs),
+        "modes": {m: sum(1 for p in pairs if p["mode"] == m) for m in MODES},
+        "input_histogram": hist,
+        "rule": ("the workspaces of checks/c10.py ws_cases (generated forests + mutants, /repo/test/workspace, hand-written corner "
+                 "cases) x one re-casing each (upper / lower / alternating / random / mixed) of every keyword, every identifier in "
+                 "a method body that is not declared there, the parent class of every header, every `uses` entity and every type "
+                 "name; declared names, literals, comments untouched (independent tokeniser: only ASCII letters inside words "
+                 "change). Both variants through the harness engines wstree (fresh manager per file, definition + completion at "
+                 "start / middle / end of every identifier), hiertree (prepare at every position, supertypes + subtypes of every "
+                 "prepared item) and report (the assembled diagnostics response per file). Compared position by position: "
+                 "definition links exactly, completion labels as sets, hierarchy answers exactly (engine sorts sup / sub), "
+                 "diagnostics item by item with the naming rules' items set aside (runs of unused-variable warnings as sets). "
+                 "A pair whose dumps are not ~ref (canon_dump equal, declaring nodes spelled identically) is outside the theorems' "
+                 "hypothesis: skipped and counted."),
+    })
+    return cov
+
+
 def repo_clean():
     """/repo's working tree equals its HEAD (other agents patch /repo temporarily to seed defects; the harness
     includes /repo/src by path, so a run made in such a window is not about HEAD)"""
@@ -1157,14 +1610,34 @@ def correspondence(ctx, broken_obligations=()):
     cov["repo_worktree_equals_head"] = {"at_start": clean0, "at_end": repo_clean()}
     cov["naming_diagnostics_changed_pairs"] = sum(1 for o in seen.values() if naming_changed(o))
     cov["samples"] = [describe(cases[len(probes())])["files"], describe(cases[-1])["files"]]
+    cov["tree_recase"] = tree_recase_stage(ctx)
     cov["refuted_or_partial"] = [
         "C17_outline_refuted: the outline's detail strings echo references as written (class %s)" % DEV_DETAIL,
         "definition / completion / hierarchy: metamorphic comparison of the implementation with itself; their models are tied by C10 / C11 / C13",
+        "C17_tree_annot_uses_refuted: the tables' uses_entities keep the reference as written (equal ignoring case only)",
+        "C17_tree_old_item_name_refuted: before /repo 3e4a84d a hierarchy item's name was the class-tree node's id (first spelling seen, possibly a reference)",
+        "C17_tree_hier_after_dot_branches_refuted: prepareTypeHierarchy after a dot depends on the spelling of the operand's class (class %s); the tree-level model classifies that position Outside" % DEV_HIER_DOT,
     ]
     return cov
 
 
 def replay(ctx, rep):
+    if rep.get("engine") == "tree_recase":
+        p = dict(kind=rep.get("kind", "replay"), mode=rep.get("mode"), a=[tuple(x) for x in rep["files"]],
+                 b=[tuple(x) for x in rep["files_recased"]], kw=1, ref=1)
+        for (s1, ta), (_s2, tb) in zip(p["a"], p["b"]):
+            print("---", s1, "(W)")
+            print(ta)
+            print("--- changed lines in W'")
+            for x, y in zip(ta.split("\n"), tb.split("\n")):
+                if x != y:
+                    print("   ", y)
+        v = tree_recase_compare(p, tree_recase_run([p])[0], None, hier_dot_listed(ctx))
+        print("tree_recase:", v or "the two variants agree on every answer (listed deviations aside)")
+        if v and not v.startswith("skip:"):
+            print("VIOLATION property=%s replay=%s" % (PID, rep.get("how_to_rerun", "").split()[-1]))
+            return 1
+        return 0
     line = rep["case"]
     hb = diff.Engines.harness()
     mb = diff.Engines.model()
